@@ -291,13 +291,13 @@ def note_ref(eng, v):
         eng.st.ghost.setdefault('refs_' + ty[1], {})[t.get_id()] = t
 
 
-def external_call(eng, what, self_ref=None, props=None):
+def external_call(eng, what, self_ref=None, props=None, exempt=()):
     """synchronous excursion into foreign code that may re-enter any public method of our objects"""
     n = eng.callcount.get('ext', 0) + 1
     eng.callcount['ext'] = n
     objs = list(eng.st.ghost.get('inv_objects', {}).values())
     for ref in objs:
-        assert_invariant(eng, ref, 'at-call#%d(%s)' % (n, what), props)
+        assert_invariant(eng, ref, 'at-call#%d(%s)' % (n, what), props, exempt=exempt)
     old = havoc(eng, what)
     for ref in objs:
         assume_invariant(eng, ref)
@@ -333,3 +333,12 @@ def old_expr(eng, arg, fr):
             if key not in cur:
                 cur[key] = arr
         st.heap = cur
+
+
+def assert_guarantees(eng, ref, props=None):
+    """the class's rely clauses are what every entry point may assume about the others during an excursion; in turn every
+    entry point has to guarantee them (two-state, against the heap at its entry)"""
+    k = KLASSES[ref.ty[1]]
+    fr = self_frame(eng, ref)
+    for nm, e in k.rely.items():
+        eng.prove('guarantee.%s' % nm, eng.pure_bool(e, fr), kind='guarantee', props=props or k.props, assume_after=False)
